@@ -177,6 +177,9 @@ func (server *SugarDB) handleCommand(ctx context.Context, message []byte, conn *
 	if !server.isInCluster() || !synchronize {
 		res, err := handler(server.getHandlerFuncParams(ctx, cmd, conn))
 		if err != nil {
+			// A failed write must not leave the mutation flag set: state copies
+			// (snapshot, AOF rewrite) wait for it to clear.
+			server.stateMutationInProgress.Store(false)
 			return nil, err
 		}
 
